@@ -24,3 +24,7 @@
 (assert (forall ((s Seq_Any)) (! (=> (= (len_Any s) 1) (= (andAlts s) (nalts (at_Any s 0)))) :pattern ((andAlts s)))))
 (assert (forall ((s Seq_Any)) (! (=> (> (len_Any s) 1) (= (andAlts s) (times (nalts (at_Any s 0)) (andAlts (sub_Any s 1 (len_Any s)))))) :pattern ((andAlts s)))))
 (assert (= (nalts nilAny) 0))
+; the set-valued path query (one value per reached node, however many routes lead to it) the generator emits for
+; (path, start variable, prefixes): GeneratePropertySet named as a function (A-PURE)
+;; type generator.RegoPathResult
+(declare-fun propSetF (Any String Int) S_generator_RegoPathResult)
